@@ -4,7 +4,7 @@ IDC = set('abcdefghijklmnopqrstuvwxyzABCDEFGHIJKLMNOPQRSTUVWXYZ0123456789_')
 ALPHA = set('abcdefghijklmnopqrstuvwxyzABCDEFGHIJKLMNOPQRSTUVWXYZ')
 DIGIT = set('0123456789')
 BUILTIN = {'ASCII_ALPHA': ALPHA, 'ASCII_ALPHANUMERIC': ALPHA | DIGIT, 'ASCII_DIGIT': DIGIT,
-           'ASCII_BIN_DIGIT': set('01'), 'ASCII_HEX_DIGIT': set('0123456789abcdefABCDEF'),
+           'ASCII_BIN_DIGIT': set('01'), 'ASCII_NONZERO_DIGIT': set('123456789'), 'ASCII_OCT_DIGIT': set('01234567'), 'ASCII_HEX_DIGIT': set('0123456789abcdefABCDEF'),
            'ASCII_ALPHA_LOWER': set('abcdefghijklmnopqrstuvwxyz'), 'ASCII_ALPHA_UPPER': set('ABCDEFGHIJKLMNOPQRSTUVWXYZ')}
 
 
@@ -232,3 +232,136 @@ class Grammar:
                 rec(e['e'], seen)
         rec(self.G[name]['e'], frozenset([name]))
         return out
+
+    def digit_tokens(self):
+        """Atomic rules that are built from single-character classes inside DIGIT ∪ {'_'} only (the number tokens of
+        the language: array sizes, list bounds, decimal literals), with their verdict on the language
+        D = 0 | [1-9][0-9]* of canonical decimal numerals: (rule, shape, D ⊆ L(rule), why-not)."""
+        out = []
+        for name in self.order:
+            r = self.G[name]
+            if r['ty'] not in ('atomic', 'compound'):
+                continue
+            parts = self.flatten_seq(r['e'])
+            classes = []
+            okshape = True
+            for p in parts:
+                inner = p['e'] if p['k'] in ('rep', 'rep1', 'opt') else p
+                c = self.charclass(inner) if p['k'] in ('rep', 'rep1', 'opt', 'str', 'range', 'ident', 'choice') else None
+                if c is None:
+                    okshape = False
+                    break
+                classes.append((p['k'] if p['k'] in ('rep', 'rep1', 'opt') else 'one', c))
+            if not okshape or not classes:
+                continue
+            allc = set().union(*[c for k, c in classes])
+            if not allc & DIGIT or not allc <= DIGIT | {'_'}:
+                continue
+            shape = ' ~ '.join('%s[%s]' % (k, ''.join(sorted(c))) for k, c in classes)
+            # decide D ⊆ L for the two shapes in use; anything else is reported as undecided (fail closed)
+            if len(classes) == 1 and classes[0][0] == 'rep1':
+                miss = DIGIT - classes[0][1]
+                out.append((name, shape, not miss, 'digits %s not accepted' % ''.join(sorted(miss)) if miss else None))
+            elif len(classes) == 2 and classes[0][0] == 'one' and classes[1][0] == 'rep':
+                m1, m2 = DIGIT - classes[0][1], DIGIT - classes[1][1]
+                why = []
+                if m1:
+                    why.append('first digit %s not accepted (one-digit numerals %s are rejected)' % (''.join(sorted(m1)), ', '.join(sorted(m1))))
+                if m2:
+                    why.append('later digits %s not accepted' % ''.join(sorted(m2)))
+                out.append((name, shape, not why, '; '.join(why) or None))
+            else:
+                out.append((name, shape, False, 'shape not decided by the rule (expected C+ or C1 ~ C2*)'))
+        return out
+
+    # -- (c) identifier alternative tried before a keyword alternative
+    def first_keywords(self, e, idrules, seen=()):
+        """Identifier-shaped literals the expression can begin with (through rule references; look-aheads skipped)."""
+        k = e['k']
+        if k == 'str':
+            return {e['v']} if e['v'] and e['v'][0] in ALPHA and all(ch in IDC for ch in e['v']) else set()
+        if k == 'ident':
+            if e['v'] in idrules or e['v'] not in self.G or e['v'] in seen:
+                return set()
+            return self.first_keywords(self.G[e['v']]['e'], idrules, seen + (e['v'],))
+        if k == 'seq':
+            for part in self.flatten_seq(e):
+                if part['k'] in ('neg', 'pos'):
+                    continue
+                return self.first_keywords(part, idrules, seen)
+            return set()
+        if k == 'choice':
+            out = set()
+            for alt in self.flatten_choice(e):
+                out |= self.first_keywords(alt, idrules, seen)
+            return out
+        return set()
+
+    def ident_exclusions(self, e, idrules, seen=()):
+        """For an expression that begins with an identifier role: (role, literals excluded by negative look-aheads
+        in front of the identifier along that path); None when it does not begin with an identifier."""
+        k = e['k']
+        if k == 'ident':
+            if e['v'] in idrules:
+                return (e['v'], set())
+            if e['v'] in self.G and e['v'] not in seen:
+                return self.ident_exclusions(self.G[e['v']]['e'], idrules, seen + (e['v'],))
+            return None
+        if k == 'seq':
+            excl = set()
+            for part in self.flatten_seq(e):
+                if part['k'] == 'neg':
+                    for lits, guard in self.kw_parts(part['e'], idrules):
+                        excl |= set(lits)
+                    continue
+                if part['k'] == 'pos':
+                    continue
+                r = self.ident_exclusions(part, idrules, seen)
+                return (r[0], r[1] | excl) if r else None
+            return None
+        if k == 'choice':
+            # every identifier-starting alternative has to exclude: report the weakest
+            res = None
+            for alt in self.flatten_choice(e):
+                r = self.ident_exclusions(alt, idrules, seen)
+                if r:
+                    res = r if res is None else (res[0], res[1] & r[1])
+            return res
+        return None
+
+    def keyword_order(self):
+        """RF-G(iii). In an ordered choice, an alternative that begins with an identifier role and comes BEFORE an
+        alternative beginning with the identifier-shaped literal w takes the text `w …` first whenever its continuation
+        matches; the role has to exclude w by a negative look-ahead.  Returns (positions, findings) with
+        finding = (rule, earlier alternative, role, later alternative, w)."""
+        idrules = set(self.ident_rules())
+        positions, findings = [], []
+
+        def desc(a):
+            return a.get('v', a['k'])
+
+        def scan(name, e):
+            k = e['k']
+            if k == 'choice':
+                alts = self.flatten_choice(e)
+                for j, alt in enumerate(alts):
+                    kws = self.first_keywords(alt, idrules)
+                    if not kws:
+                        continue
+                    for prev in alts[:j]:
+                        r = self.ident_exclusions(prev, idrules)
+                        if not r:
+                            continue
+                        positions.append((name, desc(prev), r[0], desc(alt), len(kws)))
+                        for w in sorted(kws - r[1]):
+                            findings.append((name, desc(prev), r[0], desc(alt), w))
+                for alt in alts:
+                    scan(name, alt)
+            elif k == 'seq':
+                scan(name, e['a'])
+                scan(name, e['b'])
+            elif k in ('opt', 'rep', 'rep1', 'pos', 'neg'):
+                scan(name, e['e'])
+        for name in self.order:
+            scan(name, self.G[name]['e'])
+        return list(dict.fromkeys(positions)), list(dict.fromkeys(findings))
